@@ -14,14 +14,20 @@ RULE = ("random definition trees (depth<=8, arbitrary branching, dotted names, i
         "(typed with their keyword incl. every width/sign suffix, or untyped) and must stay one parameter with the "
         "type of the first occurrence; in ~30% of the groups with leaf children a sibling group repeats the child lines "
         "character by character (same indentation, name, type, value) under another parent; block strings and table rows "
-        "contain lines starting with '#', blank lines, leading blanks and lines that look like DIP syntax; every literal form: bool, int, float in "
+        "contain lines starting with '#', blank lines, leading blanks and lines that look like DIP syntax; table string cells "
+        "follow csv rules (backslashes and apostrophes literal, \"...\" fields with doubled quotes, text after a closing quote); "
+        "a same-base stream parses two texts from ONE base environment (two parsers on one Environment, or one parser with a "
+        "second add_string), the first ending inside groups, the second indented as a whole: each result is what the text "
+        "alone gives; every literal form: bool, int, float in "
         "decimal/scientific notation, bare/quoted/escaped strings, none, inline/quoted/block arrays, block strings, "
         "tables) rendered to DIP text; plus flat line sequences with arbitrary indentation numbers; plus a malformed "
         "stream (impl vs model only). non-trivial = depth>=2 or a de-indent by >=2 levels or an array/block/table; "
         "distinct = the text")
 ASSUMPTIONS = [
     "text is ASCII; white space inside lines is the blank character; names match [a-zA-Z0-9_.-]+",
-    "comments and strings do not contain the triple quote, the marks $@00..$@02, or a backslash other than \\' and \\\"; "
+    "comments and strings do not contain the triple quote, the marks $@00..$@02, or a backslash other than \\' and \\\" "
+    "(block strings and table cells may contain backslashes, but not directly before a quote character and not at the "
+    "end of the last block line, where it would escape the closing quotes); "
     "a quoted string does not contain its own delimiter unescaped; the quoted text 'none' is not used as a string",
     "bare strings do not start with '{', '(' or a quote (those are references, functions, expressions by the syntax)",
     "number literals are the decimal/scientific forms ([+-]digits[.digits][e[+-]digits]); int()/float() extras "
@@ -454,7 +460,7 @@ def gen_definition(rng, name, allow_block=True, allow_table=True, ty=None, unit_
         n = rng.randint(1, 4)
         rows = [rng.choice(["Lorem ipsum dolor", "  indented line", "x = 1 # not a comment", "say \"hi\"", "it's", "", "a", "[1,2]", "tail  ",
                             "#!/bin/bash", "#SBATCH --nodes=2", "   # indented hash", "#", "a int = 1", "  b float = 2 m", "@end",
-                            "@case true", "!constant", "$unit x = 1 m", "= 3", "{?ref}", "grp"]) for _ in range(n)]
+                            "@case true", "!constant", "$unit x = 1 m", "= 3", "{?ref}", "grp", "C:\\data\\run1.h5 \\alpha", "O''Neil it's"]) for _ in range(n)]
         if all(x.strip() == "" for x in rows):
             rows[0] = "text"
         val = "\n".join(rows)
@@ -484,6 +490,14 @@ def gen_definition(rng, name, allow_block=True, allow_table=True, ty=None, unit_
     return head, tail, payload, [("", ty, prec, uns, unit, val)], meta
 
 
+CSV_CELLS = [
+    ("\\alpha", "\\alpha"), ("C:\\data\\run1.h5", "C:\\data\\run1.h5"), ("\\beta_2", "\\beta_2"),
+    ("it's", "it's"), ("O''Neil", "O''Neil"), ("'q'", "'q'"), ("x\"y", "x\"y"), ("5'", "5'"),
+    ("\"it's\"", "it's"), ("\"a b\"", "a b"), ("\"say \"\"hi\"\" x\"", "say \"hi\" x"), ("\"C:\\dir a\"", "C:\\dir a"),
+    ("\"\"", ""), ("\"a\"b", "ab"), ("\"p q\"r", "p qr"),
+]
+
+
 def gen_table(rng, name):
     ncols = rng.randint(1, 4)
     nrows = rng.randint(1, 4)
@@ -510,8 +524,13 @@ def gen_table(rng, name):
             if inner is not None:
                 t, v = gen_array(rng, ty, inner, False)
             elif ty == "str":
-                v = rng.choice(["a", "John", "b c", "John Smith", "x1", "true", "12", "q-r", "#ff0000", "#", "@end", "!x", "a=1"])
-                t = '"%s"' % v if (" " in v or rng.random() < 0.3) else v
+                if rng.random() < 0.35:
+                    # cells are split by csv rules: backslashes and apostrophes are literal, a field that starts with
+                    # a double quote runs to the closing one and "" inside it is a quote character
+                    t, v = rng.choice(CSV_CELLS)
+                else:
+                    v = rng.choice(["a", "John", "b c", "John Smith", "x1", "true", "12", "q-r", "#ff0000", "#", "@end", "!x", "a=1"])
+                    t = '"%s"' % v if (" " in v or rng.random() < 0.3) else v
             elif ty == "int":
                 v = rng.choice([0, 1, -3, 20, 2 ** 40, rng.randint(-99, 99)]); t = str(v)
             elif ty == "float":
@@ -631,9 +650,10 @@ def gen_tree(rng, max_depth=8, size=None):
     return lines, expected
 
 
-def assign_indents(rng, lines):
+def assign_indents(rng, lines, base=None):
     """Consistent indentation: every parent chooses one width (1..7) for all its children."""
-    base = rng.choice([0, 0, 0, 0, 2, 5])
+    if base is None:
+        base = rng.choice([0, 0, 0, 0, 2, 5])
     stack = []          # (depth, indent, child_width)
     for ln in lines:
         while stack and stack[-1][0] >= ln.depth:
@@ -815,10 +835,12 @@ def flush(ctx, cases, prop="C13", sig_fn=None):
     res = ctx.driver.ask_many(reqs)
     for c, r in zip(cases, res):
         ctx.count("stream." + c["stream"])
-        impl = impl_run(c["text"])
+        impl = c["impl"] if "impl" in c else impl_run(c["text"])
         ctx.count("impl.err" if isinstance(impl, str) else "impl.ok")
         ctx.case(c["text"], c["nontriv"], {"text": c["text"][:400]} if c["nontriv"] else None)
         replay = {"stream": c["stream"], "text": c["text"], "units": sorted(c["units"]), "preamble": c["preamble"]}
+        if "context" in c:
+            replay["context"] = c["context"]
         if "ok" not in r:
             report_tie_break(ctx, c, replay, "driver error %s" % r)
             continue
@@ -929,6 +951,55 @@ def unit_tokens(text):
     return set(t for t in re.findall(r"[^\s#=]+", text) if len(t) <= 40)
 
 
+def same_base_cases(ctx, rng):
+    """Two texts parsed one after the other FROM THE SAME base environment (a prepared Environment handed to two
+    parsers, or one parser object that gets a second add_string after its first parse): the parses are independent, so
+    each result is what the text alone gives.  The first text usually ends deep inside groups, the second one is
+    indented as a whole."""
+    from scinumtools.dip import DIP, Environment
+    l1, e1 = gen_tree(rng, size=rng.randint(2, 8))
+    assign_indents(rng, l1, base=0)
+    l2, e2 = gen_tree(rng, size=rng.randint(1, 6))
+    assign_indents(rng, l2, base=rng.choice([1, 2, 4, 4, 7, 12]))
+    t1 = render(rng, l1, noise=0.1, preamble=UNIT_PREAMBLE)
+    t2 = render(rng, l2, noise=0.1, preamble=UNIT_PREAMBLE)
+    keep = []
+    variant = rng.choice(["two parsers on one Environment", "one parser, second add_string"])
+    ctx.count("same-base." + variant.split(",")[0].replace(" ", "-"))
+    res = []
+    try:
+        if variant.startswith("two"):
+            base = Environment()
+            for t in (t1, t2):
+                p = DIP(base)
+                keep.append(p)
+                p.add_string(t)
+                try:
+                    res.append(read_env(p.parse()))
+                except Exception:
+                    res.append("err")
+        else:
+            p = DIP()
+            keep.append(p)
+            for t in (t1, t2):
+                p.add_string(t)
+                try:
+                    res.append(read_env(p.parse()))
+                except Exception:
+                    res.append("err")
+    except Exception:
+        res = (res + ["err", "err"])[:2]
+    out = []
+    for t, ls, ex, r, tag in ((t1, l1, e1, res[0], "first"), (t2, l2, e2, res[1], "second")):
+        lj = spec_lines(ls, UNIT_PREAMBLE)
+        c = run_case(ctx, "same-base:" + tag, t, lj, ex, units_in(lj) | {"m"}, True)
+        c["impl"] = r
+        c["text"] = t if tag == "first" else t
+        c["context"] = {"variant": variant, "first_text": t1}
+        out.append(c)
+    return out
+
+
 def mutate(rng, text):
     if not text:
         return text
@@ -969,6 +1040,10 @@ def correspond(ctx):
         batch.append(tree_case(ctx, rng))
     flush(ctx, batch)
     batch = [flat_case(ctx, rng) for _ in range(n_flat)]
+    flush(ctx, batch)
+    batch = []
+    for _ in range(400 if thorough else 100):
+        batch += same_base_cases(ctx, rng)
     flush(ctx, batch)
     # malformed stream: single-character edits of valid texts, real code vs model only
     batch = []
